@@ -1,4 +1,256 @@
 import EaselModel.Core.Proto
-/-! Line-protocol driver for the C12 model (stub: answers bad-op until the model lands). -/
-open EaselModel.Proto
-def main : IO Unit := runDriver () (fun s _ => (s, "bad-op"))
+import EaselModel.Dsqdata.Codec
+import EaselModel.Dsqdata.Loader
+import EaselModel.WorkQueue.Model
+/-! Line-protocol driver for the C12 models: dsqdata codec, loader arithmetic (through `dsqrt`), work queue
+    (sequential differential ops `wq …`, and `wqtrace`: validation of an observed multi-threaded trace). -/
+open EaselModel EaselModel.Proto EaselModel.Dsqdata EaselModel.WorkQueue
+
+structure S where
+  q : Option Sys := none
+
+def natList (s : String) : List Nat :=
+  if s == "-" then [] else (s.splitOn ",").filterMap String.toNat?
+
+def u32s (ps : List UInt32) : String :=
+  if ps.isEmpty then "-" else ",".intercalate (ps.map fun p => toString p.toNat)
+
+def fnvByte (h : UInt64) (b : UInt8) : UInt64 := (h ^^^ b.toUInt64) * (0x100000001b3 : UInt64)
+def fnvBytes (h : UInt64) (bs : List UInt8) : UInt64 := bs.foldl fnvByte h
+def fnvNat (h : UInt64) (n : Nat) : UInt64 :=
+  (List.range 8).foldl (fun h i => fnvByte h (UInt8.ofNat ((n >>> (8*i)) % 256))) h
+def fnv0 : UInt64 := 0xcbf29ce484222325
+
+/-! ### work queue: state dump shared with the harness -/
+
+def slotStr (o : Option Block) : String := match o with | some b => toString b | none => "0"
+/-- queue contents in queue order: what the API can observe (not the raw slot array / head index) -/
+def ringStr (r : Ring) (size : Nat) : String :=
+  if r.cnt = 0 then "-" else ",".intercalate ((r.contents size).map slotStr)
+def dump (s : Sys) : String :=
+  s!"{s.rq.cnt} {s.wq.cnt} {s.pending} {ringStr s.rq s.size} {ringStr s.wq s.size}"
+
+def optBlock (n : Nat) : Option Block := if n = 0 then none else some n
+
+/-- sequential op on the queue; an op that would block is answered `wouldblock` and not executed -/
+def wqOp (st : S) (ws : List String) : S × String :=
+  match ws with
+  | "create" :: _ =>
+    match argNat? ws "size" with
+    | some n => if n = 0 then (st, "bad-op") else
+        let s := Sys.create n
+        ({ st with q := some s }, s!"ok | {dump s}")
+    | none => (st, "bad-op")
+  | op :: _ =>
+    match st.q with
+    | none => (st, "bad-op")
+    | some s =>
+      let lbl : Option (Label × Bool) :=      -- label, would block
+        match op with
+        | "init" => (argNat? ws "b").map fun b => (Label.init b, false)
+        | "remove" => some (Label.remove, false)
+        | "reset" => some (Label.reset, false)
+        | "complete" => some (Label.complete, false)
+        | "rupd" =>
+          match argNat? ws "in", argNat? ws "out" with
+          | some i, some o => some (Label.readerUpdate (optBlock i) (o != 0), o != 0 && s.rq.cnt == 0)
+          | _, _ => none
+        | "wupd" =>
+          match argNat? ws "w", argNat? ws "in", argNat? ws "out" with
+          | some w, some i, some o => some (Label.workerUpdate w (optBlock i) (o != 0), o != 0 && s.wq.cnt == 0)
+          | _, _, _ => none
+        | _ => none
+      match lbl with
+      | none => (st, "bad-op")
+      | some (l, blocks) =>
+        if blocks then (st, s!"wouldblock | {dump s}")
+        else match step s l with
+          | .disabled => (st, s!"disabled | {dump s}")
+          | .overflow => (st, s!"overflow | {dump s}")
+          | .ok s' =>
+            let r := match l with
+              | .remove | .readerUpdate _ true | .workerUpdate _ _ true =>
+                match s'.got with
+                | (_, some b) :: _ => s!"ok b={b}"
+                | (_, none) :: _ => if l == Label.remove then "eod" else "ok b=0"
+                | [] => "ok"
+              | _ => "ok"
+            ({ st with q := some s' }, s!"{r} | {dump s'}")
+  | [] => (st, "bad-op")
+
+/-! ### work queue: trace validation
+A trace is `ev=` a `;`-separated list of records
+`tid/op/in/out/phase/end/got/rc/wc/pend/rcontents/wcontents` where op ∈ {I,M,S,C,R,W} (Init, reMove, reSet, Complete,
+ReaderUpdate, WorkerUpdate), phase ∈ {f,w} (first region of the call / region after a cond_wait returned), end ∈ {u,c}
+(region ended by unlock / by cond_wait), got = pointer stored through `*out` (0 = NULL / none). Slots are `.`-separated. -/
+
+structure Ev where
+  tid : Nat
+  op : String
+  inp : Nat
+  out : Nat
+  phase : String
+  fin : String
+  got : Nat
+  snap : String      -- "rh rc wh wc pend rslots wslots" in `dump` format
+
+def parseEv (s : String) : Option Ev :=
+  match s.splitOn "/" with
+  | [tid, op, inp, out, phase, fin, got, rc, wc, pend, rs, wsl] =>
+    match tid.toNat?, inp.toNat?, out.toNat?, got.toNat? with
+    | some tid, some inp, some out, some got =>
+      some { tid := tid, op := op, inp := inp, out := out, phase := phase, fin := fin, got := got,
+             snap := s!"{rc} {wc} {pend} {rs.replace "." ","} {wsl.replace "." ","}" }
+    | _, _, _, _ => none
+  | _ => none
+
+def evLabel (e : Ev) : Option Label :=
+  match e.op, e.phase with
+  | "I", "f" => some (.init e.inp)
+  | "M", "f" => some .remove
+  | "S", "f" => some .reset
+  | "C", "f" => some .complete
+  | "R", "f" => some (.readerUpdate (optBlock e.inp) (e.out != 0))
+  | "R", "w" => some .readerWake
+  | "W", "f" => some (.workerUpdate e.tid (optBlock e.inp) (e.out != 0))
+  | "W", "w" => some (.workerWake e.tid)
+  | _, _ => none
+
+/-- is thread `tid` asleep on its condition variable in `s`? -/
+def asleep (s : Sys) (e : Ev) : Bool :=
+  if e.op == "R" then s.rWait.isSome else if e.op == "W" then !(workerIdle s e.tid) else false
+
+def validate (size : Nat) (evs : List String) : String := Id.run do
+  let mut s := Sys.create size
+  let mut i := 0
+  for raw in evs do
+    match parseEv raw with
+    | none => return s!"bad-event i={i}"
+    | some e =>
+      match evLabel e with
+      | none => return s!"bad-event i={i}"
+      | some l =>
+        match step s l with
+        | .disabled => return s!"notpath i={i} why=disabled ev={raw}"
+        | .overflow => return s!"notpath i={i} why=overflow ev={raw}"
+        | .ok s' =>
+          if dump s' != e.snap then return s!"notpath i={i} why=state model=[{dump s'}] impl=[{e.snap}] ev={raw}"
+          if asleep s' e != (e.fin == "c") then return s!"notpath i={i} why=wait model-asleep={asleep s' e} ev={raw}"
+          -- pointer handed out through *out at an unlock
+          if e.fin == "u" && (e.op == "M" || ((e.op == "R" || e.op == "W") && e.out != 0)) then
+            match s'.got with
+            | (_, g) :: _ => if slotStr g != toString e.got then return s!"notpath i={i} why=got model={slotStr g} impl={e.got}"
+            | [] => return s!"notpath i={i} why=got-none"
+          match checkState s' with
+          | some w => return s!"invariant i={i} what={w} ev={raw}"
+          | none => pure ()
+          s := s'
+          i := i + 1
+  return s!"ok steps={i} wdeq={s.wDeq.length} rdeq={s.rDeq.length}"
+
+/-! ### dsqdata end-to-end prediction -/
+
+def hexList (s : String) : List (List UInt8) :=
+  -- element = "x" ++ hex (possibly empty); "-" = no element
+  if s == "-" then [] else (s.splitOn ",").map fun h => (bytesOfHexAux (h.toList.drop 1) []).getD []
+
+/-- `dsqrt`: predicted chunking and content digest of a database written from the given records and read back -/
+def dsqrt (ws : List String) : String :=
+  match arg? ws "abc", argNat? ws "maxseq", argNat? ws "maxpacket", arg? ws "names", arg? ws "descs", arg? ws "dsq" with
+  | some abc, some maxseq, some maxpacket, some names, some descs, some dsq =>
+    let names := hexList names
+    let descs := hexList descs
+    let ds := hexList dsq
+    let amino := abc == "amino"
+    let packs := ds.map fun d => if amino then pack5 d else pack2 d
+    let metas := (names.zip descs).map fun (n, d) => n.length + 1 + 1 + d.length + 1 + 4
+    let idx := indexOf ((packs.map List.length).zip metas) 0 0
+    match loaderChunks maxseq maxpacket (idx.length + 1) (LState.init idx) with
+    | none => "fault"
+    | some cs =>
+      -- what the unpackers deliver, chunk by chunk
+      let allp := packs.flatten
+      let (_, ok, seqs) := cs.foldl (fun (acc : List UInt32 × Bool × List (List UInt8)) c =>
+          let (rest, ok, out) := acc
+          let mine := rest.take c.pn.toNat
+          match unpackChunk amino mine with
+          | some d => (rest.drop c.pn.toNat, ok && d.length == c.n, out ++ d)
+          | none => (rest.drop c.pn.toNat, false, out)) (allp, true, [])
+      if !ok then "fault" else
+      let h := (List.range seqs.length).foldl (fun h i =>
+          let h := fnvBytes h (names.getD i []); let h := fnvByte h 0
+          let h := fnvByte h 0                                   -- empty accession
+          let h := fnvBytes h (descs.getD i []); let h := fnvByte h 0
+          let h := fnvNat h (2^64 - 1)                            -- taxid -1 (as int64)
+          let d := seqs.getD i []
+          let h := fnvNat h d.length
+          fnvBytes h d) fnv0
+      let cstr := if cs.isEmpty then "-" else ",".intercalate (cs.map fun c => s!"{c.i0}:{c.n}:{c.pn}")
+      s!"ok nseq={seqs.length} chunks={cstr} digest={h.toNat} eofs={(argNat? ws "consumers").getD 1} dup=0 miss=0 bad=-1 oob=0 err=0"
+  | _, _, _, _, _, _ => "bad-op"
+
+def step' (st : S) (line : String) : S × String :=
+  let ws := words line
+  match ws with
+  | "pack5" :: _ =>
+    match argHex? ws "d" with
+    | some d => let p := pack5 d; (st, s!"ok P={p.length} psq={u32s p} inplace=same")
+    | none => (st, "bad-op")
+  | "pack2" :: _ =>
+    match argHex? ws "d" with
+    | some d => let p := pack2 d; (st, s!"ok P={p.length} psq={u32s p} inplace=same")
+    | none => (st, "bad-op")
+  | "rt5" :: _ =>
+    match argHex? ws "d" with
+    | some d =>
+      let p := pack5 d
+      match unpack5 (p ++ [0xFFFFFFFF]) with
+      | some (d', pp) => (st, s!"ok P={p.length} L={d'.length} P2={pp} d={hexOrDash d'}")
+      | none => (st, "fault")
+    | none => (st, "bad-op")
+  | "rt2" :: _ =>
+    match argHex? ws "d" with
+    | some d =>
+      let p := pack2 d
+      match unpack2 (p ++ [0xFFFFFFFF]) with
+      | some (d', pp) => (st, s!"ok P={p.length} L={d'.length} P2={pp} d={hexOrDash d'}")
+      | none => (st, "fault")
+    | none => (st, "bad-op")
+  | "unpack5" :: _ =>
+    match arg? ws "p" with
+    | some p =>
+      match unpack5 ((natList p).map UInt32.ofNat) with
+      | some (d, pp) => (st, s!"ok L={d.length} P={pp} d={hexOrDash d}")
+      | none => (st, "fault")
+    | none => (st, "bad-op")
+  | "unpack2" :: _ =>
+    match arg? ws "p" with
+    | some p =>
+      match unpack2 ((natList p).map UInt32.ofNat) with
+      | some (d, pp) => (st, s!"ok L={d.length} P={pp} d={hexOrDash d}")
+      | none => (st, "fault")
+    | none => (st, "bad-op")
+  | "unpackchunk" :: _ =>
+    match argNat? ws "mode", arg? ws "p" with
+    | some m, some p =>
+      match unpackChunk (m == 5) ((natList p).map UInt32.ofNat) with
+      | some ds =>
+        let sm := smemLayout ds
+        (st, s!"ok N={ds.length} L={",".intercalate (ds.map fun d => toString d.length)} smem={hexOrDash sm}")
+      | none => (st, "fault")
+    | _, _ => (st, "bad-op")
+  | "wq" :: rest => wqOp st rest
+  | "wqtrace" :: _ =>
+    match argNat? ws "size", arg? ws "ev" with
+    | some size, some ev => (st, validate size (if ev == "-" then [] else ev.splitOn ";"))
+    | _, _ => (st, "bad-op")
+  | "wqrun" :: _ =>
+    -- threaded run: the schedule-independent summary; the trace itself is validated by `wqtrace`
+    match argNat? ws "items", argNat? ws "workers", argNat? ws "blocks" with
+    | some items, some workers, some blocks =>
+      (st, s!"ok items={items} processed={items} stops={workers} order=fifo final={blocks},0,0 removed={blocks}")
+    | _, _, _ => (st, "bad-op")
+  | "dsqrt" :: _ => (st, dsqrt ws)
+  | _ => (st, "bad-op")
+
+def main : IO Unit := runDriver ({} : S) step'
